@@ -17,7 +17,15 @@ FUNCS = {
 src = open(sys.argv[1]).read()
 out = sys.argv[2]
 for name, pat in FUNCS.items():
-    m = re.search(r"(?m)^" + pat, src)
+    m = None
+    for cand in re.finditer(r"(?m)^" + pat, src):
+        # a prototype ends its parameter list with ';', the definition with '{' (forward declarations are skipped)
+        close = src.find(")", cand.end())
+        while close >= 0 and src.count("(", cand.end() - 1, close + 1) != src.count(")", cand.end() - 1, close + 1):
+            close = src.find(")", close + 1)
+        if close >= 0 and src[close + 1:].lstrip()[:1] == "{":
+            m = cand
+            break
     if not m:
         print("extract_func: definition of %s not found" % name); sys.exit(2)
     end = src.find("\n}\n", m.start())
